@@ -22,6 +22,7 @@ LAYOUTS = {
     'L1': {'M1': [(3, 2), (3, 20), (5, 7)], 'M2': [(4, 9)]},
     'L2': {'M1': [(1, 5), (2, 5)], 'M2': [(1, 6), (1, 7)]},
     'L3': {'M1': [(2, 3), (2, 9)], 'M2': [(2, 4), (3, 4)]},      # with m2tags 'mixed': only M2's first payment is tagged transfer
+    'L4': {'M1': [(1, 5, 2024), (1, 5, 2025)], 'M2': [(2, 5, 2025), (2, 5, 2024)]},      # the same month and day in two different years
 }
 
 VIEWS = {
@@ -68,6 +69,16 @@ filter: sum(sum(by("year"))) == total and min(payments) > 9002
 [Period]
 filter: months >= period("month") - 9003
 ''',
+    'chain': '''
+[Band]
+filter: 9001 < total <= 9002
+
+[MonthBand]
+filter: 1 <= months <= 9003
+
+[Plain]
+filter: total > 9001
+''',
     'text': '''
 [Cat]
 filter: category == "@P1" and "@P2" in tags
@@ -86,10 +97,11 @@ def _txns(layout, amounts, m2tags):
     out = []
     k = 0
     for m, dates in LAYOUTS[layout].items():
-        for (mo, d) in dates:
+        for dt in dates:
+            mo, d, yr = dt[0], dt[1], (dt[2] if len(dt) > 2 else 2024)
             out.append({'merchant': m, 'category': 'Food' if m == 'M1' else 'Bills', 'subcategory': 'Grocery' if m == 'M1' else 'Power',
-                        'date': datetime(2024, mo, d), 'amount': amounts[k],
-                        'tags': ['recurring'] if m == 'M1' else ((['transfer'] if (mo, d) == dates[0] else []) if list(m2tags) == ['mixed'] else list(m2tags)),
+                        'date': datetime(yr, mo, d), 'amount': amounts[k],
+                        'tags': ['recurring'] if m == 'M1' else ((['transfer'] if dt == dates[0] else []) if list(m2tags) == ['mixed'] else list(m2tags)),
                         'description': m, 'source': 'S'})
             k += 1
     return out
@@ -101,7 +113,8 @@ def _facts(layout, amounts, m2tags):
     k = 0
     for m, dates in LAYOUTS[layout].items():
         pays, by_month = [], {}
-        for (mo, d) in dates:
+        for dt in dates:
+            mo = (dt[2] if len(dt) > 2 else 2024, dt[0])          # a month is a month of a year
             a = amounts[k]
             k += 1
             pays.append(a)
@@ -129,6 +142,8 @@ def _expected(vname, f, period_months, s1, s2, n1, n2, n3):
         return {'PeakVar': peak > n1, 'Peak': peak > n1, 'AvgCount': (sum(pays) / len(pays) >= n2) and len(pays) == n3}
     if vname == 'payments-b':
         return {'Yearly': min(pays) > n2, 'Period': f['months'] >= period_months - n3}
+    if vname == 'chain':
+        return {'Band': n1 < tot <= n2, 'MonthBand': 1 <= f['months'] <= n3, 'Plain': tot > n1}
     if vname == 'text':
         return {'Cat': f['category'].lower() == s1.lower() and s2.lower() in f['tags'],
                 'Sub': f['subcategory'].lower() != s1.lower() or (tot >= n1),
@@ -271,7 +286,8 @@ def obligations(tier, seed):
     obs = []
     to = 130 if q else 1200
     combos = [('totals-a', 'L1', ['utilities']), ('totals-b', 'L2', ['Income']), ('totals-b', 'L1', []), ('payments-a', 'L1', ['utilities']), ('payments-a', 'L2', []),
-              ('totals-a', 'L3', ['mixed']), ('payments-a', 'L3', ['mixed']), ('payments-b', 'L1', ['x']), ('payments-b', 'L2', ['investment']), ('text', 'L1', ['Transfer', 'x']), ('text', 'L2', ['recurring'])]
+              ('totals-a', 'L3', ['mixed']), ('payments-a', 'L3', ['mixed']), ('payments-b', 'L1', ['x']), ('payments-b', 'L2', ['investment']), ('text', 'L1', ['Transfer', 'x']), ('text', 'L2', ['recurring']),
+              ('chain', 'L1', ['utilities']), ('totals-b', 'L4', ['x']), ('payments-a', 'L4', [])]
     if not q:
         combos += [(v, l, t) for v in VIEWS for l in LAYOUTS for t in (['investment'], ['Recurring', 'misc'])]
     combos = [c for i, c in enumerate(combos) if c not in combos[:i]]
